@@ -1,0 +1,77 @@
+//go:build verif
+
+package goa
+
+// Contracts checked by /verif/goavc (comment-only file, built only with -tags verif).
+
+//@ func NewErrorID
+//@   ensures len8: len(result) == 8
+//@   modifies nothing
+
+//@ func newError
+//@   ensures fresh: fresh(result) && result != nil
+//@   ensures fields: result.Name == name && result.Timeout == timeout && result.Temporary == temporary && result.Fault == fault
+//@   ensures msg: result.Message == sprintf(format, backing(v), v.off, len(v))
+//@   ensures clean: result.err == nil && len(result.history) == 0 && result.Field == nil
+//@   modifies nothing
+
+//@ func asError
+//@   requires err != nil
+//@   requires asSE(err) != 0 ==> allocated(ptr(*ServiceError, asSE(err)))
+//@   ensures found: asSE(err) != 0 ==> result == ptr(*ServiceError, asSE(err))
+//@   ensures wrapped: asSE(err) == 0 && !typeIs(err, *ServiceError) ==> fresh(result) && result.Name == "error" && result.Message == errMsg(err) && result.Fault && !result.Timeout && !result.Temporary && result.err == err && len(result.history) == 0 && result.Field == nil
+//@   ensures nonnil: result != nil
+//@   modifies nothing
+
+//@ func (*ServiceError).History
+//@   requires e != nil
+//@   ensures kept: len(e.history) > 0 ==> result == e.history
+//@   ensures self: len(e.history) == 0 ==> len(result) == 1 && result[0] == e && fresh(result) && result.off == 0
+//@   modifies nothing
+
+//@ const mergeSep = "; "
+
+//@ func MergeErrors
+//@   property C18
+//@   let both = err != nil && other != nil
+//@   let eS = asSE(err) != 0
+//@   let oS = asSE(other) != 0
+//@   let e = ptr(*ServiceError, asSE(err))
+//@   let o = ptr(*ServiceError, asSE(other))
+//@   let r = result.(*ServiceError)
+//@   let eMsg0 = ite(eS, old(e.Message), errMsg(err))
+//@   let oMsg0 = ite(oS, old(o.Message), errMsg(other))
+//@   let eName0 = ite(eS, old(e.Name), "error")
+//@   let oName0 = ite(oS, old(o.Name), "error")
+//@   let eHist = eS && len(old(e.history)) > 0
+//@   let oHist = oS && len(old(o.history)) > 0
+//@   let eN = ite(eHist, len(old(e.history)), 1)
+//@   let oN = ite(oHist, len(old(o.history)), 1)
+//@   let eHist0 = eS && len(e.history) > 0
+//@   let oHist0 = oS && len(o.history) > 0
+//@   let eErr0 = ite(eS, old(e.err), err)
+//@   let oErr0 = ite(oS, old(o.err), other)
+//   -- the two arguments are different errors whose histories hold original errors only
+//@   requires both ==> !(typeIs(err, *ServiceError) && !eS) && !(typeIs(other, *ServiceError) && !oS)
+//@   requires both && eS && oS ==> asSE(err) != asSE(other)
+//@   requires eS ==> allocated(e)
+//@   requires eHist0 && oHist0 ==> e.history.arr != o.history.arr
+//@   requires oS ==> allocated(o)
+//@   requires both && eS ==> forall i int :: 0 <= i && i < len(e.history) ==> e.history[i] != e && e.history[i] != nil && allocated(e.history[i])
+//@   requires both && oS ==> forall i int :: 0 <= i && i < len(o.history) ==> o.history[i] != nil && allocated(o.history[i]) && (eS ==> o.history[i] != e)
+//@   split oS
+//@   split oHist0
+//@   ensures* nil.left: err == nil ==> result == other
+//@   ensures* nil.right: err != nil && other == nil ==> result == err
+//@   ensures shape: both ==> typeIs(result, *ServiceError) && r != nil && (eS ==> r == e) && (!eS ==> fresh(r))
+//@   ensures* msg: both ==> r.Message == eMsg0 + mergeSep + oMsg0
+//@   ensures* timeout: both ==> r.Timeout == ((eS && old(e.Timeout)) && (oS && old(o.Timeout)))
+//@   ensures* temporary: both ==> r.Temporary == ((eS && old(e.Temporary)) && (oS && old(o.Temporary)))
+//@   ensures* fault: both ==> r.Fault == ((!eS || old(e.Fault)) && (!oS || old(o.Fault)))
+//@   ensures* name: both ==> r.Name == ite(eName0 == "error", oName0, eName0)
+//@   ensures* hist.len: both ==> len(r.history) == eN + oN
+//@   ensures* hist.unchanged.left: both && eHist ==> forall i int :: 0 <= i && i < eN ==> r.history[i] != nil && r.history[i].Message == old(e.history[i].Message) && r.history[i].Name == old(e.history[i].Name)
+//@   ensures* hist.unchanged.self: both && !eHist ==> r.history[0] != nil && r.history[0].Message == eMsg0 && r.history[0].Name == eName0
+//@   ensures* hist.unchanged.right: both ==> forall i int :: 0 <= i && i < oN ==> r.history[eN + i] != nil && r.history[eN + i].Message == ite(oHist, old(o.history[i].Message), oMsg0) && r.history[eN + i].Name == ite(oHist, old(o.history[i].Name), oName0)
+//@   ensures* causes: both ==> forall x Iface :: (reachE(eErr0, x) || reachE(oErr0, x)) ==> reachE(r.err, x)
+//@   ensures* nil.frame: !both ==> forall p *ServiceError :: allocated(p) ==> p.Message == old(p.Message) && p.Name == old(p.Name) && p.history == old(p.history)
